@@ -7,8 +7,10 @@ package zoo
 import (
 	"errors"
 	"fmt"
+	"github.com/go-kid/ioc/container"
 	"reflect"
 	"sync"
+	"sync/atomic"
 )
 
 // K is the number of node indices of the graph family.
@@ -251,3 +253,30 @@ func (*ST2) Qualifier() string { return "m63" }
 
 // Stateless returns n (0..3) stateless nodes.
 func Stateless(n int) []any { return []any{&ST0{}, &ST1{}, &ST2{}}[:n] }
+
+// Sink has every container role at once: node, application runner, closer, (pass-through) component
+// post-processor, factory post-processor and definition scanner. Counters tell which callbacks reached it.
+type Sink struct {
+	Core
+	Runs, Closes, Factories, Scans int32
+	RunHook                        func() error
+}
+
+func (s *Sink) Run() error {
+	atomic.AddInt32(&s.Runs, 1)
+	if s.RunHook != nil {
+		return s.RunHook()
+	}
+	return nil
+}
+func (s *Sink) Close() error                                                 { atomic.AddInt32(&s.Closes, 1); return nil }
+func (s *Sink) PostProcessBeforeInitialization(c any, n string) (any, error) { return c, nil }
+func (s *Sink) PostProcessAfterInitialization(c any, n string) (any, error)  { return c, nil }
+func (s *Sink) PostProcessComponentFactory(f container.Factory) error {
+	atomic.AddInt32(&s.Factories, 1)
+	return nil
+}
+func (s *Sink) PostProcessDefinitionRegistry(r container.DefinitionRegistry, c any, n string) error {
+	atomic.AddInt32(&s.Scans, 1)
+	return nil
+}
